@@ -8,10 +8,11 @@ import N0Verif.Props.C01
 
 Only property statements live here; the lemmas are in `Proofs/FindAll.lean`,
 `Proofs/FindAllDesc.lean` and `Proofs/FindAllList.lean` (list-rooted containers), the model in
-`Model/FindAll.lean` (it follows the code with `fixes/C19-a.patch` … `fixes/C19-e.patch` applied:
+`Model/FindAll.lean` (it follows the code with `fixes/C19-a.patch` … `fixes/C19-f.patch` applied:
 since C19-d a name / index step on a final element is a miss of that branch, since C19-e `findall`
 hands `raise_exception` on to `_findall` — `findallTop … re`, default `true`; `findfirst` searches
-with `false`).  Every theorem about `findallTop` holds for both modes.
+with `false`; since C19-f a `text()` condition compares a node that is not a string instead of
+raising AttributeError).  Every theorem about `findallTop` holds for both modes.
 
 Reading.  The engine keeps two mutable default arguments.  The model threads the contents of the
 two objects a call receives in and out of every call (`Out.fl`, `Out.ps`), and the top-level entry
@@ -174,8 +175,8 @@ expression, starting contents of the defaults and fuel, `findall(xpath, False)` 
 IndexError or KeyError — the two exceptions `_findall` uses for "not there" (index out of range, a
 scalar where a container is expected, an index on a dictionary, `'..'` above the root) — and since
 C19-d a step on a final element is a plain miss.  What may still be raised comes from the
-expression, not from the tree (TypeError / ValueError / SyntaxError of a malformed step,
-AttributeError of `text()` on a non-string). -/
+expression, not from the tree (TypeError / ValueError / SyntaxError of a malformed step; since
+C19-f nothing else: `C19_exceptions_from_expression`). -/
 theorem C19_findall_quiet (fuel : Nat) (st : Defaults) (t : Val) (e : Str) :
     (findallTop fuel st t e false).res ≠ .error .IndexError ∧
     (findallTop fuel st t e false).res ≠ .error .KeyError :=
@@ -211,6 +212,130 @@ theorem C19_scalar_step_miss (re : Bool) (fuel : Nat) (node : Val) (tok : Str) (
     fa re (fuel + 1) node (tok :: rest) fl ps = ⟨.ok Option.none, fl, ps⟩ := by
   cases node <;> simp only [FindAll.isContainer, Bool.true_eq_false] at hn <;>
     rcases hc with ⟨n, h⟩ | ⟨i, h⟩ | h <;> simp only [fa, step, h, stepName, stepIdx, stepStar]
+
+/-! ## 3a. `text()` conditions on nodes that are not strings (fix C19-f)
+
+Before the fix the `text()` branch evaluated `parent_node.lower()`: AttributeError for an int, float,
+bool, None, dict or list node, in both modes, which left every loop above it — one such leaf under a
+fan-out or a wildcard aborted a search with real matches (`'*/n[text()=v]'` on
+`{'x': {'n': 1}, 'y': {'n': 'v'}}`). -/
+
+/-- **No search raises AttributeError**: for every tree, expression, starting contents of the
+defaults, fuel and mode. -/
+theorem C19_text_never_attribute_error (fuel : Nat) (st : Defaults) (t : Val) (e : Str) (re : Bool) :
+    (findallTop fuel st t e re).res ≠ .error .AttributeError :=
+  fa_no_attribute_error re fuel t (tokens e) st.1 st.2
+
+/-- the same for `findfirst` -/
+theorem C19_findfirst_never_attribute_error (fuel : Nat) (st : Defaults) (t : Val) (e : Str) (re : Bool) :
+    (findfirstTop fuel st t e re).1 ≠ .error .AttributeError := by
+  have hq := C19_text_never_attribute_error fuel st t e false
+  rw [C19_findfirst]
+  cases hr : (findallTop fuel st t e false).res with
+  | error x =>
+    rw [hr] at hq
+    simp only
+    exact fun h => hq (by cases h; rfl)
+  | ok f =>
+    simp only
+    cases f.getD [] with
+    | nil => cases re <;> simp
+    | cons kv more => cases more <;> cases re <;> simp
+
+/-- **Which exceptions a search can raise at all.**  With `raise_exception=False` every exception
+comes from a token of the expression (TypeError: malformed bracket / unknown condition, ValueError:
+`int()` or the unpacking of the condition, SyntaxError: `eval` of `last()…`); with
+`raise_exception=True` IndexError and KeyError in addition.  (`OutOfFuel`, `Unsupported` are the
+model's own markers.)  Nothing is raised because of the *kind of a node*. -/
+theorem C19_exceptions_from_expression (fuel : Nat) (st : Defaults) (t : Val) (e : Str) (re : Bool) (x : PyErr)
+    (h : (findallTop fuel st t e re).res = .error x) :
+    x = .TypeError ∨ x = .ValueError ∨ x = .SyntaxError ∨ x = .Unsupported ∨ x = .OutOfFuel ∨
+    (re = true ∧ (x = .IndexError ∨ x = .KeyError)) := by
+  refine fa_errIn re (Q := fun x => x = .TypeError ∨ x = .ValueError ∨ x = .SyntaxError ∨ x = .Unsupported ∨
+      x = .OutOfFuel ∨ (re = true ∧ (x = .IndexError ∨ x = .KeyError)))
+    (by simp) ?_ (fun hre => by simp [hre]) (fun hre => by simp [hre]) fuel t (tokens e) st.1 st.2 x h
+  intro y hy
+  rcases hy with h | h | h | h <;> simp [h]
+
+/-- **What a `text()` step does, for every kind of node**: it compares (`textEq`) and either misses
+this branch (`None`, both objects untouched) or goes on in the same node with the same list object
+and the node registered in a copy of the stack.  It never raises by itself. -/
+theorem C19_text_step (re : Bool) (fuel : Nat) (node : Val) (tok : Str) (rest : List Str) (eq : Bool) (v : Str)
+    (fl : FL) (ps : PS) (hc : classify tok = .text eq v) (b : Bool) (hb : textEq node v = .ok b) :
+    fa re (fuel + 1) node (tok :: rest) fl ps =
+      if b = eq then
+        ⟨(fa re fuel node rest fl (push ps fl node)).res, (fa re fuel node rest fl (push ps fl node)).fl, ps⟩
+      else ⟨.ok Option.none, fl, ps⟩ := by
+  simp only [fa, step, hc, stepText, hb]
+  cases b <;> cases eq <;> simp
+
+/-- **On string nodes nothing changed**: the case-insensitive comparison of the texts. -/
+theorem C19_text_str_unchanged (s v : Str) (hs : ∀ c ∈ s, c.toNat < 128) :
+    textEq (.str s) v = .ok (lower s == lower v) := by
+  have : s.any (fun c => decide (c.toNat ≥ 128)) = false := by
+    rw [List.any_eq_false]
+    intro c hc
+    have := hs c hc
+    simp only [ge_iff_le, decide_eq_true_eq, Nat.not_le]
+    exact this
+  simp only [textEq, this, Bool.false_eq_true, if_false]
+
+/-- **What is selected among nodes that are not strings**: an int node equals the expected text iff
+`int(expected)` succeeds and is that number (`'01'`, `' 1 '`, `'+1'` equal `1`); a bool node is the
+int `1` / `0`; None, a dict and a list equal no text — so `=` misses them and `!=` selects them. -/
+theorem C19_text_nonstr_selects (v : Str) :
+    (∀ i, textEq (.int i) v = .ok (pyInt v == some i)) ∧
+    (∀ b, textEq (.bool b) v = .ok (pyInt v == some (if b then 1 else 0))) ∧
+    textEq .none v = .ok false ∧
+    (∀ c xs, textEq (.list c xs) v = .ok false) ∧
+    (∀ c kvs, textEq (.dict c kvs) v = .ok false) :=
+  ⟨fun _ => rfl, fun _ => rfl, rfl, fun _ _ => rfl, fun _ _ => rfl⟩
+
+/-- a float node: `float(expected)` is outside the model (`Unsupported`), except that a text with a
+character no float literal contains is not equal to it (`float()` refuses it) -/
+theorem C19_text_float_node (r v : Str) (hv : pyInt v = Option.none) :
+    textEq (.flt r) v = if v.all floatLitChar then .error .Unsupported else .ok false := by
+  simp only [textEq, hv]
+
+/-- a float node and an integer literal below 10^15 (converted exactly by `float()`): equal iff the
+node prints as that integer followed by `.0` (`-0.0` equals `0`) -/
+theorem C19_text_float_node_int (r v : Str) (i : Int) (hv : pyInt v = some i) (hi : i.natAbs < 10 ^ 15) :
+    textEq (.flt r) v = .ok (r == intRepr i ++ ['.', '0'] || (i == 0 && r == ['-', '0', '.', '0'])) := by
+  simp only [textEq, hv, hi, if_true]
+
+/-- **findall and item access select the same nodes**: on every node that is neither a string nor a
+float the comparison is the one item access makes for `[text()=v]` (`XPath.textEqCond`, the model
+of `n0dict._find`); on a string node item access compares case-sensitively, findall
+case-insensitively (unchanged), so item access selects a subset. -/
+theorem C19_text_agrees_item_access (node : Val) (v : Str) (hs : ∀ s, node ≠ .str s) (hf : ∀ r, node ≠ .flt r) :
+    textEq node v = .ok (textEqCond node (.str v)) := by
+  cases node with
+  | str s => exact absurd rfl (hs s)
+  | flt r => exact absurd rfl (hf r)
+  | _ => rfl
+
+theorem C19_text_str_item_access_subset (s v : Str) (hs : ∀ c ∈ s, c.toNat < 128)
+    (h : textEqCond (.str s) (.str v) = true) : textEq (.str s) v = .ok true := by
+  rw [C19_text_str_unchanged s v hs]
+  simp only [textEqCond, pyEqCond, decide_eq_true_eq] at h
+  subst h
+  simp
+
+-- non-vacuity of the C19-f theorems: a `text()` token, every kind of node
+example : classify ['[', 't', 'e', 'x', 't', '(', ')', '=', '0', '1', ']'] = .text true ['0', '1'] ∧ classify ['[', 't', 'e', 'x', 't', '(', ')', '!', '=', 'v', ']'] = .text false ['v'] := by decide
+example : textEq (.int 1) ['0', '1'] = .ok true ∧ textEq (.int 1) ['1', '.', '0'] = .ok false ∧
+    textEq (.bool true) ['1'] = .ok true ∧ textEq (.bool true) ['t', 'r', 'u', 'e'] = .ok false ∧
+    textEq .none ['n', 'o', 'n', 'e'] = .ok false ∧ textEq (.str ['V']) ['v'] = .ok true ∧
+    textEqCond (.str ['V']) (.str ['v']) = false ∧ textEqCond (.str ['v']) (.str ['v']) = true ∧
+    textEq (.flt ['1', '.', '5']) ['z', 'z'] = .ok false ∧ textEq (.flt ['1', '.', '5']) ['1', '.', '5'] = .error .Unsupported ∧
+    textEq (.flt ['1', '.', '0']) ['0', '1'] = .ok true ∧ textEq (.flt ['1', '.', '5']) ['1'] = .ok false ∧
+    pyInt ['z', 'z'] = Option.none ∧ pyInt ['0', '1'] = some 1 := by decide
+example : fa true 5 (.int 1) [['[', 't', 'e', 'x', 't', '(', ')', '=', '0', '1', ']']] [['n']] [] = ⟨.ok (some [(['/', '/', 'n'], .int 1)]), [['n']], []⟩ ∧
+    fa true 5 .none [['[', 't', 'e', 'x', 't', '(', ')', '=', '0', '1', ']']] [['n']] [] = ⟨.ok Option.none, [['n']], []⟩ ∧
+    fa true 5 (.dict .n0 []) [['[', 't', 'e', 'x', 't', '(', ')', '!', '=', 'v', ']']] [['n']] [] = ⟨.ok (some [(['/', '/', 'n'], .dict .n0 [])]), [['n']], []⟩ := by decide
+example : (findallTop 20 fresh (.dict .n0 []) ['[', 'x']).res = .error .TypeError ∧
+    (findallTop 20 fresh (.dict .n0 []) ['[', '5', ']'] true).res = .error .IndexError ∧
+    (findallTop 20 fresh (.dict .n0 []) ['[', '5', ']'] false).res = .ok Option.none := by decide
 
 /-! ## 4. name on a list -/
 
@@ -415,6 +540,27 @@ theorem C19_text_key_fixed :
     (findallTop 20 fresh exTree ['a', '/', 'k', '[', 't', 'e', 'x', 't', '(', ')', '<', '>', 'w', ']']).res
       = .ok (some [(['/', '/', 'a', '/', 'k'], .str ['V'])]) ∧
     getItem 20 exTree ['/', '/', 'a', '/', 'k'] = (exTree, .ok (.str ['V'])) := by decide
+
+/-- the trees of the former finding C19-f: `{'x': {'n': 1}, 'y': {'n': 'v'}}` and
+`{'r': [{'name': 'a', 'id': 1}, {'name': 'b', 'id': None}]}` -/
+def exNum : Val :=
+  .dict .n0 [(['x'], .dict .n0 [(['n'], .int 1)]), (['y'], .dict .n0 [(['n'], .str ['v'])])]
+def exRecs : Val :=
+  .dict .n0 [(['r'], .list .n0 [.dict .n0 [(['n', 'a', 'm', 'e'], .str ['a']), (['i', 'd'], .int 1)],
+                                .dict .n0 [(['n', 'a', 'm', 'e'], .str ['b']), (['i', 'd'], .none)]])]
+
+/-- **C19-f (fixed by `fixes/C19-f.patch`).**  A numeric / None leaf under a wildcard or a fan-out no
+longer aborts the search (before: AttributeError in both modes); the numeric node is compared as a
+number, as item access does; `!=` selects the node that has no text. -/
+theorem C19_text_nonstr_fixed :
+    (findallTop 20 fresh exNum ['*', '/', 'n', '[', 't', 'e', 'x', 't', '(', ')', '=', 'v', ']']).res = .ok (some [(['/', '/', 'y', '/', 'n'], .str ['v'])]) ∧
+    (findallTop 20 fresh exNum ['*', '/', 'n', '[', 't', 'e', 'x', 't', '(', ')', '=', 'v', ']'] false).res = .ok (some [(['/', '/', 'y', '/', 'n'], .str ['v'])]) ∧
+    (findfirstTop 20 fresh exNum ['*', '/', 'n', '[', 't', 'e', 'x', 't', '(', ')', '=', 'v', ']'] false).1 = .ok (some (['/', '/', 'y', '/', 'n'], .str ['v'])) ∧
+    (findallTop 20 fresh exNum ['*', '/', 'n', '[', 't', 'e', 'x', 't', '(', ')', '=', '0', '1', ']']).res = .ok (some [(['/', '/', 'x', '/', 'n'], .int 1)]) ∧
+    getItem 20 exNum ['x', '/', 'n', '[', 't', 'e', 'x', 't', '(', ')', '=', '1', ']'] = (exNum, .ok (.int 1)) ∧
+    (findallTop 20 fresh exRecs ['r', '/', 'i', 'd', '[', 't', 'e', 'x', 't', '(', ')', '=', '1', ']', '/', '.', '.', '/', 'n', 'a', 'm', 'e']).res = .ok (some [(['/', '/', 'r', '[', '0', ']', '/', 'n', 'a', 'm', 'e'], .str ['a'])]) ∧
+    (findallTop 20 fresh exRecs ['r', '/', 'i', 'd', '[', 't', 'e', 'x', 't', '(', ')', '!', '=', '1', ']', '/', '.', '.', '/', 'n', 'a', 'm', 'e']).res = .ok (some [(['/', '/', 'r', '[', '1', ']', '/', 'n', 'a', 'm', 'e'], .str ['b'])]) := by
+  refine ⟨?_, ?_, ?_, ?_, ?_, ?_, ?_⟩ <;> decide
 
 /-- outside the quantifier: a list of scalars under a wildcard raises -/
 theorem C19_scalar_in_list_cex :
